@@ -4,6 +4,7 @@ from pyvc.contract import contract, Ret, Raise, Obj, AnyVal, Lit, OneOf, implies
 import spec.runtime as S
 import stone.backends.python_rsrc.stone_validators as bv
 import stone.backends.python_rsrc.stone_base as bb
+import stone.backends.python_rsrc.stone_serializers as SS
 
 MV = 'stone.backends.python_rsrc.stone_validators:'
 MB = 'stone.backends.python_rsrc.stone_base:'
@@ -123,3 +124,97 @@ class public_name_c:
 
     def ensures(name, result, exc):
         return exc is None and isinstance(result, str)
+
+
+@contract(MB + 'Attribute.__set__', properties=['C08', 'C04', 'C06'], raises=[bv.ValidationError])
+class Attribute_set:
+    """assigning a field: accepted exactly when the value satisfies the field's
+    type (user-defined types: the right class; fields of such values are checked
+    when they are serialized); stores the normalised value; None on a nullable
+    field unsets it"""
+    params = {'self': Obj(bb.Attribute), 'instance': Obj(bb.Struct, generated=True), 'value': AnyVal()}
+
+    def requires(self, instance, value):
+        return (_wf_descriptor(self) and isinstance(self.validator, bv.Validator) and S.wf(self.validator)
+                and self.nullable == isinstance(self.validator, bv.Nullable)
+                and self.user_defined == S.is_user_validator(S.unwrap_nullable(self.validator)))
+
+    def expected(self, instance, value):
+        if self.nullable and value is None:
+            return Ret(None)
+        if S.assignable(self.validator, value):
+            return Ret(None)
+        return Raise(bv.ValidationError)
+
+    def ensures(self, instance, value, result, exc):
+        return exc is not None or (
+            getattr(instance, self.name) is S.stored_value(self, value))
+
+
+@contract(MB + 'Attribute.__delete__', properties=['C08'])
+class Attribute_delete:
+    params = {'self': Obj(bb.Attribute), 'instance': Obj(bb.Struct, generated=True)}
+
+    def requires(self, instance):
+        return _wf_descriptor(self)
+
+    def expected(self, instance):
+        return Ret(None)
+
+    def ensures(self, instance, result, exc):
+        return exc is None and getattr(instance, self.name) is S.NOT_SET
+
+
+# ---------------------------------------------------------------- bb.Union
+
+@contract(MB + 'Union.__init__', properties=['C08', 'C06', 'C04'], raises=[AssertionError, bv.ValidationError])
+class Union_init:
+    """constructing a union member: the tag must be one of the union's tags and
+    the value must satisfy the tag's type (Void: None; user types: the right class)"""
+    params = {'self': Obj(bb.Union, generated=True, fresh=True), 'tag': AnyVal(), 'value': AnyVal()}
+
+    def requires(self, tag, value):
+        return (S.wf_union_def(type(self)) and isinstance(tag, str)
+                and (tag not in type(self)._tagmap or S.wf(type(self)._tagmap[tag])))
+
+    def expected(self, tag, value):
+        if S.tag_validator(type(self), tag) is None:
+            return Raise(AssertionError)
+        if isinstance(S.tag_validator(type(self), tag), bv.Void):
+            if value is None:
+                return Ret(None)
+            return Raise(AssertionError)
+        if S.union_member_ok(S.tag_validator(type(self), tag), value):
+            return Ret(None)
+        return Raise(bv.ValidationError)
+
+    def ensures(self, tag, value, result, exc):
+        return exc is not None or (self._tag is tag and self._value is value)
+
+
+@contract(MB + 'Union._is_tag_present', properties=['C06', 'C05', 'C13'])
+class Union_is_tag_present:
+    params = {'cls': AnyVal(), 'tag': AnyVal(), 'caller_permissions': Obj(SS.CallerPermissionsDefault)}
+
+    def requires(cls, tag, caller_permissions):
+        return isinstance(cls, type) and S.wf_union_def(cls) and S.hashable_key(tag)
+
+    def expected(cls, tag, caller_permissions):
+        if tag is None:
+            return Raise(AssertionError)
+        return Ret(tag in cls._tagmap)
+
+
+@contract(MB + 'Union._get_val_data_type', properties=['C06', 'C05', 'C13'], raises=[AssertionError, KeyError])
+class Union_get_val_data_type:
+    params = {'cls': AnyVal(), 'tag': AnyVal(), 'caller_permissions': Obj(SS.CallerPermissionsDefault)}
+
+    def requires(cls, tag, caller_permissions):
+        return isinstance(cls, type) and S.wf_union_def(cls) and S.hashable_key(tag)
+
+    def expected(cls, tag, caller_permissions):
+        if tag is None:
+            return Raise(AssertionError)
+        if tag in cls._tagmap:
+            return Ret(cls._tagmap[tag])
+        return Raise(KeyError)
